@@ -24,6 +24,10 @@ Definition MOD : Z := -1.    (* the auction module account (auctionV1 / auctions
 Definition COLL : Z := -2.   (* collector module account *)
 Definition EXT : Z := -3.    (* external initiator (V2X) *)
 Definition TM : Z := -4.     (* tokenmint module account (bids are moved there and burnt) *)
+Definition AUC1 : Z := -5.   (* V2S: the generation-1 auction module account (auctiontypes.ModuleName): the start
+                                (liquidationsV2 CheckStatsForSurplusAndDebt -> collector.GetAmountFromCollector)
+                                puts the lot there and the close takes it from there (fix 67f334a).  For V1S / V1D
+                                that module account is the auction's own account MOD. *)
 
 Record auction := mkA {
   var : variant;
@@ -159,8 +163,8 @@ Definition close (a : auction) (l : ledger) (w : Z) (tm_ok : bool) : outcome sta
       let l1 := if sell a >? 0 then mint_to l w (lot_denom a) (sell a) else l in
       lift (send l1 MOD COLL (bid_denom a) (buy a)) 13 (fun l2 =>
       Ok (set_closed a, l2))
-  | V2S =>
-      lift (send l COLL MOD (lot_denom a) (sell a)) 14 (fun l1 =>
+  | V2S =>                                                      (* the lot waits in the generation-1 auction module account *)
+      lift (send l AUC1 MOD (lot_denom a) (sell a)) 14 (fun l1 =>
       lift (send l1 MOD w (lot_denom a) (sell a)) 10 (fun l2 =>
       lift (send l2 MOD TM (bid_denom a) (buy a)) 11 (fun l3 =>
       if negb tm_ok then Err 12 else
@@ -267,3 +271,12 @@ Definition holds_C11_open (a : auction) (acct : Z) (bid0 lot0 bid1 lot1 : Z) : b
    | Some w => if acct =? w then bid1 =? bid0 - buy a else bid1 =? bid0
    | None => bid1 =? bid0
    end).
+
+(* generation-2 surplus, after the close: the lot came out of the generation-1 auction module
+   account (where the start put it) exactly once, the collector's lot-denom balance is where it
+   was when the auction started; nothing is claimed for the other variants or while open *)
+Definition holds_C11_source (a : auction) (auc0 coll0 auc1 coll1 : Z) : bool :=
+  match var a with
+  | V2S => if status a =? 2 then (auc1 =? auc0 - sell a) && (coll1 =? coll0) else (auc1 =? auc0) && (coll1 =? coll0)
+  | _ => true
+  end.
